@@ -51,7 +51,7 @@ def demo_info(d):
     m = re.search(r"cp\s+\S*_test\.go\s+(\S+)", run)
     if m:
         dest = m.group(1)
-        dest = re.sub(r"^/tmp/seed/C\d+/", "", dest)
+        dest = re.sub(r"^/tmp/seed2?/C\d+/", "", dest)
     mm = re.search(r"mkdir -p (\S+)", run)
     rm = re.search(r"-run\s+'?\"?([^'\"\s]+)", run)
     pkgm = re.search(r"go test[^\n]*?(\./\S+)\s*$", run, re.M)
@@ -61,9 +61,9 @@ def demo_info(d):
 def main():
     only = [a for a in sys.argv[1:] if not a.startswith("--")]
     os.makedirs("/verif/seeded", exist_ok=True)
-    for d in sorted(glob.glob("/tmp/seed/out/C*/m*")):
+    for d in sorted(glob.glob("/tmp/seed/out/C*/m*")) + sorted(glob.glob("/tmp/seed2/out/C*/m*")):
         pid, mn = d.split("/")[-2], d.split("/")[-1]
-        name = f"{pid}-{mn}"
+        name = f"{pid}-{mn}" if d.startswith("/tmp/seed/") else f"{pid}-r2{mn}"
         if only and name not in only and pid not in only:
             continue
         try:
